@@ -4,6 +4,8 @@ package c02
 import (
 	"bytes"
 	"encoding/hex"
+	"errors"
+	"fmt"
 	"strings"
 	"testing"
 
@@ -99,51 +101,106 @@ func genChallenge(t *rapid.T, label string) vf.Hex {
 	}
 }
 
-// genASCIIPasswordMin draws a 7-bit ASCII password of at least min characters: mostly up to 20, one in
-// twelve from a long tail (LM truncates at 14, NT does not truncate at all).
-func genASCIIPasswordMin(t *rapid.T, min int) string {
+// genV1Password draws a password of at least min characters for the NTLMv1 entry points. The NT response is
+// defined for every password (NTOWFv1 = MD4(UTF-16LE(password))), so half of the draws come from the full
+// alphabet (non-ASCII letters, non-BMP, hostile code points); the other half are 7-bit ASCII including the
+// control characters 0x01..0x1F and 0x7F, mostly up to 20 characters with one in twelve from a long tail (LM
+// truncates at 14, NT does not truncate at all). The LM response is judged only for 7-bit passwords (is7bit).
+func genV1Password(t *rapid.T, min int) string {
+	if rapid.Bool().Draw(t, "pwAlpha") {
+		s := alpha.String(t, "pw", 20, "")
+		for len([]rune(s)) < min {
+			s += string(alpha.Rune(t, ""))
+		}
+		return s
+	}
 	n := rapid.IntRange(min, 20).Draw(t, "pwlen")
 	if rapid.IntRange(0, 11).Draw(t, "pwlenClass") == 11 {
 		n = rapid.IntRange(21, 300).Draw(t, "pwlenLong")
 	}
 	b := make([]byte, n)
 	for i := range b {
-		b[i] = byte(rapid.IntRange(0x20, 0x7e).Draw(t, "pwch"))
+		if rapid.IntRange(0, 7).Draw(t, "pwchClass") == 0 {
+			// control characters (CR, LF, TAB, ESC, DEL ...) are characters of the password like any other
+			b[i] = byte(rapid.SampledFrom([]int{'\n', '\r', '\t', 0x01, 0x1b, 0x1f, 0x7f, 0x0b, 0x0c, 0x08, 0x02}).Draw(t, "pwctl"))
+		} else {
+			b[i] = byte(rapid.IntRange(0x01, 0x7f).Draw(t, "pwch"))
+		}
 	}
 	return string(b)
 }
 
-func genASCIIPassword(t *rapid.T) string { return genASCIIPasswordMin(t, 0) }
+// is7bit: the domain on which the LM hash is defined without a code page.
+func is7bit(s string) bool {
+	for i := 0; i < len(s); i++ {
+		if s[i] >= 0x80 {
+			return false
+		}
+	}
+	return true
+}
+
+func hasControl(s string) bool {
+	for i := 0; i < len(s); i++ {
+		if s[i] < 0x20 || s[i] == 0x7f {
+			return true
+		}
+	}
+	return false
+}
+
+func invert(b []byte) []byte {
+	o := make([]byte, len(b))
+	for i := range b {
+		o[i] = ^b[i]
+	}
+	return o
+}
 
 func exactCap(b []byte) []byte { o := make([]byte, len(b)); copy(o, b); return o[:len(b):len(b)] }
 
 var v1EntryPoints = []string{"ntresponse", "hash", "string", "lmresponse"}
 
-func checkV1(c v1Case) []vf.Finding {
-	var fs []vf.Finding
-	var nt [16]byte
-	var inst *ntlmv1.NTLMv1
-	var err error
-	ctor := c.ctor()
+// newV1 makes the instance the case describes and says which NT hash it stands for.
+func newV1(ctor, password string, ntHash, challenge []byte) (inst *ntlmv1.NTLMv1, nt [16]byte, err error) {
 	switch ctor {
 	case "password":
-		nt = refcrypto.NT(c.Password)
-		inst, err = ntlmv1.NewNTLMv1WithPassword("DOM", "user", c.Password, exactCap(c.Challenge))
+		nt = refcrypto.NT(password)
+		inst, err = ntlmv1.NewNTLMv1WithPassword("DOM", "user", password, exactCap(challenge))
 	case "literal":
-		nt = refcrypto.NT(c.Password)
-		inst = &ntlmv1.NTLMv1{Domain: "DOM", Username: "user", Password: c.Password, ServerChallenge: exactCap(c.Challenge)}
+		nt = refcrypto.NT(password)
+		inst = &ntlmv1.NTLMv1{Domain: "DOM", Username: "user", Password: password, ServerChallenge: exactCap(challenge)}
 	case "nthash":
-		copy(nt[:], c.NTHash)
-		inst, err = ntlmv1.NewNTLMv1WithNTHash("DOM", "user", exactCap(c.NTHash), exactCap(c.Challenge))
+		copy(nt[:], ntHash)
+		inst, err = ntlmv1.NewNTLMv1WithNTHash("DOM", "user", exactCap(ntHash), exactCap(challenge))
 	default:
+		err = errBadCtor
+	}
+	return
+}
+
+var errBadCtor = errors.New("unknown constructor")
+
+func checkV1(c v1Case) []vf.Finding {
+	var fs []vf.Finding
+	ctor := c.ctor()
+	inst, nt, err := newV1(ctor, c.Password, c.NTHash, c.Challenge)
+	if err == errBadCtor {
 		return []vf.Finding{vf.F("harness", "bad-case", "constructor %q", c.Ctor)}
 	}
 	if err != nil {
 		return []vf.Finding{vf.F("ntlmv1.New", "valid-input-rejected", "%v", err)}
 	}
 	want := refcrypto.DESL(nt[:], c.Challenge)
-	wantLM := refcrypto.DESL(refcrypto.LM(c.Password), c.Challenge)
-	// the entry points, First first; the LM response is defined only for instances that know the password
+	// the LM response is defined for instances that know the password, and without a code page only for 7-bit
+	// passwords; for the others LMResponse is still called (its place in the call order matters to the NT side)
+	// but whatever it does is its own business
+	judgeLM := ctor != "nthash" && is7bit(c.Password)
+	var wantLM []byte
+	if judgeLM {
+		wantLM = refcrypto.DESL(refcrypto.LM(c.Password), c.Challenge)
+	}
+	// the entry points, First first
 	var order []string
 	for _, e := range v1EntryPoints {
 		if e == c.First {
@@ -152,44 +209,88 @@ func checkV1(c v1Case) []vf.Finding {
 			order = append(order, e)
 		}
 	}
-	call := func(e string, kind string) {
+	// every slice an entry point returned, kept as returned until the end of the case
+	type kept struct {
+		who       string
+		got, want []byte
+	}
+	var keep []kept
+	call := func(inst *ntlmv1.NTLMv1, want, wantLM []byte, judgeLM bool, e, kind, what string) {
 		switch e {
 		case "ntresponse":
 			ntr, err := inst.NTResponse()
 			if err != nil || !bytes.Equal(ntr, want) {
-				fs = append(fs, vf.F("NTLMv1.NTResponse", kind, "%s instance, hash %x challenge %x, call order %v: got %x (err %v) want %x", ctor, nt, []byte(c.Challenge), order, ntr, err, want))
+				fs = append(fs, vf.F("NTLMv1.NTResponse", kind, "%s, call order %v: got %x (err %v) want %x", what, order, ntr, err, want))
 			}
+			keep = append(keep, kept{"NTLMv1.NTResponse", ntr, want})
 		case "hash":
 			h, err := inst.Hash()
 			if err != nil || !bytes.Equal(h, want) {
-				fs = append(fs, vf.F("NTLMv1.Hash", kind, "%s instance, hash %x challenge %x, call order %v: got %x (err %v) want %x", ctor, nt, []byte(c.Challenge), order, h, err, want))
+				fs = append(fs, vf.F("NTLMv1.Hash", kind, "%s, call order %v: got %x (err %v) want %x", what, order, h, err, want))
 			}
+			keep = append(keep, kept{"NTLMv1.Hash", h, want})
 		case "string":
 			if s := inst.String(); !strings.EqualFold(s, hex.EncodeToString(want)) {
-				fs = append(fs, vf.F("NTLMv1.String", kind, "%s instance, call order %v: got %s want %x", ctor, order, s, want))
+				fs = append(fs, vf.F("NTLMv1.String", kind, "%s, call order %v: got %s want %x", what, order, s, want))
 			}
 		case "lmresponse":
-			if ctor == "nthash" {
+			if !judgeLM {
+				if inst.Password != "" {
+					func() {
+						defer func() { recover() }()
+						inst.LMResponse()
+					}()
+				}
 				return
 			}
 			lmr, err := inst.LMResponse()
 			if err != nil || !bytes.Equal(lmr, wantLM) {
-				fs = append(fs, vf.F("NTLMv1.LMResponse", kind, "%s instance, pw %q challenge %x, call order %v: got %x (err %v) want %x", ctor, c.Password, []byte(c.Challenge), order, lmr, err, wantLM))
+				fs = append(fs, vf.F("NTLMv1.LMResponse", kind, "%s, call order %v: got %x (err %v) want %x", what, order, lmr, err, wantLM))
 			}
+			keep = append(keep, kept{"NTLMv1.LMResponse", lmr, wantLM})
 		}
 	}
+	what := fmt.Sprintf("%s instance, pw %q hash %x challenge %x", ctor, c.Password, nt, []byte(c.Challenge))
 	for _, e := range order {
-		call(e, "differs-from-DESL")
+		call(inst, want, wantLM, judgeLM, e, "differs-from-DESL", what)
 	}
 	if len(fs) > 0 {
 		return fs
 	}
 	// order independence: every entry point again on the same instance, after all the others have run
 	for _, e := range order {
-		call(e, "changes-after-other-entry-points")
+		call(inst, want, wantLM, judgeLM, e, "changes-after-other-entry-points", what)
 	}
 	if !bytes.Equal(inst.ServerChallenge, c.Challenge) {
 		fs = append(fs, vf.F("NTLMv1", "server-challenge-modified", "%x", inst.ServerChallenge))
+	}
+	if len(fs) > 0 {
+		return fs
+	}
+	// a second instance for another credential and the inverted challenge runs through the same entry points ...
+	pw2, nt2, ch2 := c.Password+"x", invert(c.NTHash), invert(c.Challenge)
+	inst2, ntb, err := newV1(ctor, pw2, nt2, ch2)
+	if err != nil {
+		return []vf.Finding{vf.F("ntlmv1.New", "valid-input-rejected", "second instance: %v", err)}
+	}
+	want2 := refcrypto.DESL(ntb[:], ch2)
+	judgeLM2 := ctor != "nthash" && is7bit(pw2)
+	var wantLM2 []byte
+	if judgeLM2 {
+		wantLM2 = refcrypto.DESL(refcrypto.LM(pw2), ch2)
+	}
+	first := len(keep)
+	what2 := fmt.Sprintf("second %s instance (pw %q hash %x challenge %x) next to a live first one", ctor, pw2, ntb, ch2)
+	for _, e := range order {
+		if e != "string" { // the entry points that hand back a slice
+			call(inst2, want2, wantLM2, judgeLM2, e, "differs-from-DESL", what2)
+		}
+	}
+	// ... and what the first instance handed out before is still what it was: a response is the caller's value
+	for i, k := range keep[:first] {
+		if !bytes.Equal(k.got, k.want) {
+			fs = append(fs, vf.F(k.who, "returned-response-changed-by-later-call", "%s: result %d of the case was %x and is now %x", what, i, k.want, k.got))
+		}
 	}
 	return fs
 }
@@ -216,11 +317,11 @@ func TestV1(t *testing.T) {
 		switch c.Ctor {
 		case "password":
 			// the empty password is a password like any other (NT = MD4(""), LM = the two halves of DES(0^7, magic))
-			c.Password = genASCIIPassword(t)
+			c.Password = genV1Password(t, 0)
 		case "literal":
 			// every entry point derives the NT hash of such an instance from the password (Hash documents it;
 			// NTResponse panicked before fc567d6); all of them refuse the empty password, so it is not drawn
-			c.Password = genASCIIPasswordMin(t, 1)
+			c.Password = genV1Password(t, 1)
 			c.First = rapid.SampledFrom(v1EntryPoints).Draw(t, "firstLiteral")
 		default:
 			c.NTHash = rapid.SliceOfN(rapid.Byte(), 16, 16).Draw(t, "nt")
@@ -233,8 +334,15 @@ func TestV1(t *testing.T) {
 			}
 		}
 		s.Class("ctor:" + c.Ctor)
-		if c.Ctor != "nthash" && c.Password == "" {
-			s.Class("empty-password")
+		if c.Ctor != "nthash" {
+			switch {
+			case c.Password == "":
+				s.Class("empty-password")
+			case !is7bit(c.Password):
+				s.Class("password:non-ascii")
+			case hasControl(c.Password):
+				s.Class("password:7bit-with-control-characters")
+			}
 		}
 		return c
 	}, checkV1, v1Nontrivial)
@@ -288,6 +396,7 @@ func checkV2(c v2Case) []vf.Finding {
 	if err != nil {
 		return []vf.Finding{vf.F("NTLMv2.Hash", "error", "%v", err)}
 	}
+	respAsReturned := append([]byte{}, resp...)
 	nt := refcrypto.NT(c.Password)
 	for _, p := range nlmp.VerifyNTLMv2(nt, c.User, c.Domain, c.ServerChallenge, resp, c.ClientChallenge) {
 		fs = append(fs, vf.F("NTLMv2.Hash", kindOf(p), "user %q domain %q: %s", c.User, c.Domain, p))
@@ -307,12 +416,29 @@ func checkV2(c v2Case) []vf.Finding {
 		}
 	}
 	// Hash again after the other output forms: still a response that verifies
-	if again, err := inst.Hash(); err != nil {
+	again, err := inst.Hash()
+	if err != nil {
 		fs = append(fs, vf.F("NTLMv2.Hash", "error", "second call: %v", err))
 	} else {
 		for _, p := range nlmp.VerifyNTLMv2(nt, c.User, c.Domain, c.ServerChallenge, again, c.ClientChallenge) {
 			fs = append(fs, vf.F("NTLMv2.Hash", kindOf(p), "second call, user %q domain %q: %s", c.User, c.Domain, p))
 		}
+	}
+	againAsReturned := append([]byte{}, again...)
+	// a response that was handed out is the caller's value: neither the later calls on this instance nor a
+	// second instance for another credential and other challenges change it
+	if inst2, err := ntlmv2.NewNTLMv2(c.Domain+"x", "y"+c.User, c.Password+"z", arr8(invert(c.ServerChallenge)), arr8(invert(c.ClientChallenge))); err == nil {
+		if r2, err := inst2.Hash(); err == nil {
+			for _, p := range nlmp.VerifyNTLMv2(refcrypto.NT(c.Password+"z"), "y"+c.User, c.Domain+"x", invert(c.ServerChallenge), r2, invert(c.ClientChallenge)) {
+				fs = append(fs, vf.F("NTLMv2.Hash", kindOf(p), "second instance next to a live first one, user %q domain %q: %s", "y"+c.User, c.Domain+"x", p))
+			}
+		}
+	}
+	if !bytes.Equal(resp, respAsReturned) {
+		fs = append(fs, vf.F("NTLMv2.Hash", "returned-response-changed-by-later-call", "first response was %x and is now %x", respAsReturned, resp))
+	}
+	if !bytes.Equal(again, againAsReturned) {
+		fs = append(fs, vf.F("NTLMv2.Hash", "returned-response-changed-by-later-call", "second response was %x and is now %x", againAsReturned, again))
 	}
 	// exported key = NTOWFv2
 	if want := refcrypto.NTOWFv2(nt, c.User, c.Domain); !bytes.Equal(inst.ResponseKeyNT[:], want) {
@@ -353,10 +479,13 @@ type authCase struct {
 	Flags           uint32 `json:"challenge_flags"`
 	ServerChallenge vf.Hex `json:"server_challenge"`
 	TargetInfo      []av   `json:"target_info"`
-	User            string `json:"user"`
-	Password        string `json:"password"`
-	Domain          string `json:"domain"`
-	Workstation     string `json:"workstation"`
+	// NoInfo: the CHALLENGE carries no target info at all (TargetInfoFields of length 0) instead of an AV_PAIR
+	// list; whether NTLMSSP_NEGOTIATE_TARGET_INFO is set is part of Flags either way.
+	NoInfo      bool   `json:"no_target_info,omitempty"`
+	User        string `json:"user"`
+	Password    string `json:"password"`
+	Domain      string `json:"domain"`
+	Workstation string `json:"workstation"`
 }
 type av struct {
 	ID    uint16 `json:"id"`
@@ -381,48 +510,80 @@ func decodeName(b []byte, unicode bool) string {
 	return string(rs)
 }
 
-func checkAuth(c authCase) []vf.Finding {
-	var pairs []nlmp.AvPair
+// authMessage builds the CHALLENGE of c with the reference builder, has the library parse it and answer it.
+func authMessage(c authCase) (msg []byte, pairs []nlmp.AvPair, fs []vf.Finding) {
 	for _, p := range c.TargetInfo {
 		pairs = append(pairs, nlmp.AvPair{ID: p.ID, Value: p.Value})
 	}
-	ch := &nlmp.Challenge{Flags: c.Flags, TargetInfo: nlmp.EncodeAvPairs(pairs)}
+	ch := &nlmp.Challenge{Flags: c.Flags}
+	if !c.NoInfo {
+		ch.TargetInfo = nlmp.EncodeAvPairs(pairs)
+	}
 	copy(ch.ServerChallenge[:], c.ServerChallenge)
 	parsed, err := ntlm.ParseChallengeMessage(ch.Build())
 	if err != nil {
-		return []vf.Finding{vf.F("ntlm.ParseChallengeMessage", "well-formed-challenge-rejected", "%v", err)}
+		return nil, pairs, []vf.Finding{vf.F("ntlm.ParseChallengeMessage", "well-formed-challenge-rejected", "%v", err)}
 	}
-	msg, err := ntlm.CreateAuthenticateMessage(parsed, c.User, c.Password, c.Domain, c.Workstation)
+	msg, err = ntlm.CreateAuthenticateMessage(parsed, c.User, c.Password, c.Domain, c.Workstation)
 	if err != nil {
-		return []vf.Finding{vf.F("ntlm.CreateAuthenticateMessage", "error", "%v", err)}
+		return nil, pairs, []vf.Finding{vf.F("ntlm.CreateAuthenticateMessage", "error", "%v", err)}
+	}
+	return msg, pairs, nil
+}
+
+func checkAuth(c authCase) []vf.Finding {
+	msg, pairs, fs := authMessage(c)
+	if fs != nil {
+		return fs
+	}
+	// The message is the caller's value. Before it is looked at, a second AUTHENTICATE is built for another
+	// credential against a CHALLENGE with the inverted server challenge; the first one is judged afterwards, as
+	// it is then, and must still be what was returned.
+	asReturned := append([]byte{}, msg...)
+	c2 := c
+	c2.ServerChallenge, c2.User, c2.Password, c2.Domain = invert(c.ServerChallenge), c.User+"2", c.Password+"x", "Q"+c.Domain
+	if m2, _, fs2 := authMessage(c2); fs2 != nil {
+		return fs2
+	} else if a2, problems := nlmp.ParseAuthenticate(m2); a2 == nil || len(problems) > 0 {
+		return []vf.Finding{vf.F("ntlm.CreateAuthenticateMessage", "authenticate-structure-invalid", "second message: %v", problems)}
+	}
+	if !bytes.Equal(msg, asReturned) {
+		return []vf.Finding{vf.F("ntlm.CreateAuthenticateMessage", "returned-message-changed-by-later-call", "the message was %x and is %x after another message was built", asReturned, msg)}
 	}
 	a, problems := nlmp.ParseAuthenticate(msg)
 	if a == nil || len(problems) > 0 {
 		return []vf.Finding{vf.F("ntlm.CreateAuthenticateMessage", "authenticate-structure-invalid", "%v", problems)}
 	}
-	var fs []vf.Finding
 	nt := refcrypto.NT(c.Password)
 	unicode := c.Flags&nlmp.FlagUnicode != 0
 	// the server takes user and domain from the message it received
 	user := decodeName(a.User.Data, unicode)
 	domain := decodeName(a.Domain.Data, unicode)
 	if c.Flags&nlmp.FlagExtSec == 0 {
-		// NTLMv1
+		// NTLMv1: the NT response is defined for every password, the LM response (without a code page) for 7-bit ones
 		if want := refcrypto.DESL(nt[:], c.ServerChallenge); !bytes.Equal(a.NT.Data, want) {
-			fs = append(fs, vf.F("ntlm.CreateAuthenticateMessage", "v1-nt-response-differs-from-DESL", "got %x want %x", a.NT.Data, want))
+			fs = append(fs, vf.F("ntlm.CreateAuthenticateMessage", "v1-nt-response-differs-from-DESL", "pw %q: got %x want %x", c.Password, a.NT.Data, want))
 		}
-		if want := refcrypto.DESL(refcrypto.LM(c.Password), c.ServerChallenge); !bytes.Equal(a.LM.Data, want) {
-			fs = append(fs, vf.F("ntlm.CreateAuthenticateMessage", "v1-lm-response-differs-from-DESL", "got %x want %x", a.LM.Data, want))
+		if is7bit(c.Password) {
+			if want := refcrypto.DESL(refcrypto.LM(c.Password), c.ServerChallenge); !bytes.Equal(a.LM.Data, want) {
+				fs = append(fs, vf.F("ntlm.CreateAuthenticateMessage", "v1-lm-response-differs-from-DESL", "pw %q: got %x want %x", c.Password, a.LM.Data, want))
+			}
 		}
 		return fs
+	}
+	if len(a.NT.Data) < 16+28+4 {
+		// 16 bytes of proof, the 28 fixed bytes of the client blob and at least MsvAvEOL
+		return append(fs, vf.F("ntlm.CreateAuthenticateMessage", "v2-nt-response-too-short", "%d bytes: no room for NTProofStr, the fixed part of the client blob and an AV_PAIR list closed by MsvAvEOL (target info in the challenge: %v)", len(a.NT.Data), !c.NoInfo))
 	}
 	for _, p := range nlmp.VerifyNTLMv2(nt, user, domain, c.ServerChallenge, a.NT.Data, nil) {
 		fs = append(fs, vf.F("ntlm.CreateAuthenticateMessage", "v2-nt-"+kindOf(p), "user %q domain %q (as carried in the message): %s", user, domain, p))
 	}
 	// the blob must carry the server's target info: the challenge's pairs, values equal, in their order; a
 	// client may add pairs of its own (MS-NLMP 3.1.5.1.2: channel bindings, target name, flags), so the
-	// challenge's list is looked for as a sub-sequence. That the blob's list is well-formed is VerifyNTLMv2's.
-	if len(a.NT.Data) >= 44 {
+	// challenge's list is looked for as a sub-sequence. That the blob's list is well-formed is VerifyNTLMv2's,
+	// also when the challenge carried none. Without NTLMSSP_NEGOTIATE_TARGET_INFO the TargetInfoFields "MUST be
+	// ignored on receipt" (2.2.1.2): the pairs are then not looked for.
+	if len(a.NT.Data) >= 44 && !c.NoInfo && c.Flags&nlmp.FlagTargetInf != 0 {
 		got, _, err := nlmp.ParseAvPairs(a.NT.Data[44:])
 		if err == nil {
 			if i := missingPair(got, pairs); i >= 0 {
@@ -470,6 +631,17 @@ func missingPair(got, want []nlmp.AvPair) int {
 
 func genAuth(t *rapid.T, v2 bool) authCase {
 	c := authCase{ServerChallenge: genChallenge(t, "srv"), Flags: nlmp.FlagNTLM | nlmp.FlagTargetInf}
+	// what the CHALLENGE says about target info: mostly a list under its flag; sometimes the flag with an empty
+	// field, no flag and an empty field, or a list without the flag
+	switch rapid.IntRange(0, 9).Draw(t, "infoClass") {
+	case 0:
+		c.NoInfo = true
+	case 1:
+		c.NoInfo = true
+		c.Flags &^= nlmp.FlagTargetInf
+	case 2:
+		c.Flags &^= nlmp.FlagTargetInf
+	}
 	if v2 {
 		c.Flags |= nlmp.FlagExtSec
 	}
@@ -504,23 +676,43 @@ func genAuth(t *rapid.T, v2 bool) authCase {
 	if v2 {
 		c.Password = alpha.String(t, "pw", 16, "")
 	} else {
-		c.Password = genASCIIPassword(t)
+		c.Password = genV1Password(t, 0)
 	}
 	ids := rapid.Permutation([]uint16{1, 2, 3, 4, 5, 6, 7, 9, 10}).Draw(t, "avIds")
-	for i, n := 0, rapid.IntRange(0, 5).Draw(t, "nav"); i < n; i++ {
+	for i, n := 0, rapid.IntRange(0, 5).Draw(t, "nav"); i < n && !c.NoInfo; i++ {
 		l := rapid.IntRange(0, 40).Draw(t, "avLen")
 		c.TargetInfo = append(c.TargetInfo, av{ids[i], rapid.SliceOfN(rapid.Byte(), l, l).Draw(t, "avVal")})
 	}
 	return c
 }
 
+func authClasses(s *vf.Sub, c authCase) authCase {
+	switch {
+	case c.NoInfo && c.Flags&nlmp.FlagTargetInf != 0:
+		s.Class("challenge:target-info-flag-with-empty-field")
+	case c.NoInfo:
+		s.Class("challenge:no-target-info")
+	case c.Flags&nlmp.FlagTargetInf == 0:
+		s.Class("challenge:target-info-without-flag")
+	}
+	if c.Flags&nlmp.FlagExtSec == 0 {
+		switch {
+		case !is7bit(c.Password):
+			s.Class("password:non-ascii")
+		case hasControl(c.Password):
+			s.Class("password:7bit-with-control-characters")
+		}
+	}
+	return c
+}
+
 func TestAuthMsgV1(t *testing.T) {
 	s := vf.Begin(t, P, "auth-msg-v1")
-	vf.Rapid(s, vf.N(3000, 60000), func(t *rapid.T) authCase { return genAuth(t, false) }, checkAuth, func(c authCase) bool { return len(c.Password) > 7 })
+	vf.Rapid(s, vf.N(3000, 60000), func(t *rapid.T) authCase { return authClasses(s, genAuth(t, false)) }, checkAuth, func(c authCase) bool { return len(c.Password) > 7 })
 }
 
 func TestAuthMsgV2(t *testing.T) {
 	s := vf.Begin(t, P, "auth-msg-v2")
-	vf.Rapid(s, vf.N(3000, 60000), func(t *rapid.T) authCase { return genAuth(t, true) }, checkAuth,
+	vf.Rapid(s, vf.N(3000, 60000), func(t *rapid.T) authCase { return authClasses(s, genAuth(t, true)) }, checkAuth,
 		func(c authCase) bool { return len(c.TargetInfo) > 0 || alpha.HasLower(c.Domain+c.User) })
 }
